@@ -47,13 +47,14 @@
 (***************************************************************************)
 EXTENDS Integers, Sequences, FiniteSets, TLC, Json
 
-CONSTANTS Hosts,        \* site hosts: "ip" = 127.0.0.1 (never managed), "name" = sub.example.test (qualifies for managed TLS)
+CONSTANTS Hosts,        \* site hosts: "ip" = 127.0.0.1 (never managed), "name" = sub.example.com (qualifies for managed TLS)
           Heads,        \* argument lists of a `tls` line
           Lines,        \* block lines (first token = sub-directive)
-          Core,         \* the lines a three-line file may consist of
+          Core,         \* the lines a longer file may consist of
+          Heads2,       \* the argument forms of a longer file with two `tls` lines
           MaxDirs,      \* `tls` lines per site
-          MaxLines,     \* block lines per site when there is one `tls` line
-          MaxLines2,    \* block lines per site when there are two
+          MaxLines,     \* block lines per site when there is one `tls` line (beyond two: core lines)
+          MaxLines2,    \* block lines per site when there are two (beyond one: core lines, Heads2)
           NameLines,    \* block lines per site on the "name" host
           Repaired      \* self-signed Ed25519 certificates can be made (selfsigned.go as repaired)
 
@@ -85,6 +86,7 @@ Known == {"ca", "key_type", "protocols", "ciphers", "curves", "clients", "load",
 \* ---- the alphabets the cfgs choose from ----------------------------------------------------
 HeadsAll == { <<>>, <<"off">>, <<"self_signed">>, <<"EMAIL">>, <<"CERT", "KEY">>, <<"CERT", "NOFILE">>, <<"a", "b", "c">> }
 HeadsQuick == HeadsAll \ { <<"a", "b", "c">> }
+HeadsTwo == { <<>>, <<"self_signed">>, <<"CERT", "KEY">> }
 ProtoLines == { <<"protocols", "tls1.2">>, <<"protocols", "tls1.0", "tls1.1">>, <<"protocols", "tls1.1", "tls1.3">>,
                 <<"protocols", "TLS1.2", "Tls1.3">>, <<"protocols", "tls1.3", "tls1.2">>, <<"protocols", "ssl3.0">>,
                 <<"protocols", "tls1.2", "tls1.4">>, <<"protocols">>, <<"protocols", "tls1.0">>, <<"protocols", "tls1.3">>,
@@ -115,17 +117,17 @@ MiscLines == { <<"must_staple">>, <<"insecure_disable_sni_matching">>, <<"no_red
                <<"dns", "verifdns">>, <<"dns", "nosuchprovider">>, <<"dns">>, <<"bogus_subdirective">>, <<"protocol", "tls1.2">> }
 LinesAll == ProtoLines \cup CipherLines \cup CurveLines \cup ClientLines \cup ALPNLines \cup KeyLines \cup MiscLines
 LinesQuick == { <<"protocols", "tls1.2">>, <<"protocols", "tls1.0", "tls1.1">>, <<"protocols", "TLS1.2", "Tls1.3">>,
-                <<"protocols", "tls1.3", "tls1.2">>, <<"protocols", "ssl3.0">>, <<"protocols">>,
+                <<"protocols", "tls1.3", "tls1.2">>, <<"protocols", "ssl3.0">>,
                 <<"ciphers", "ECDHE-ECDSA-AES128-CBC-SHA", "ECDHE-ECDSA-AES256-GCM-SHA384">>,
                 <<"ciphers", "ECDHE-ECDSA-AES128-GCM-SHA256", "Ecdhe-Ecdsa-Aes256-Gcm-Sha384", "ecdhe-ecdsa-aes128-gcm-sha256">>,
                 <<"ciphers", "ECDHE-RSA-AES128-GCM-SHA256">>, <<"ciphers", "ECDHE-ECDSA-AES256-GCM-SHA384", "RC4-SHA">>,
                 <<"curves", "p384">>, <<"curves", "P256", "x25519">>, <<"curves", "P521", "P521", "p256">>, <<"curves", "secp256k1">>,
                 <<"clients", "request">>, <<"clients", "require">>, <<"clients", "verify_if_given", "CA1">>, <<"clients", "CA1">>,
                 <<"clients", "CA2", "CA1", "CA2">>, <<"clients", "verify_if_given">>, <<"clients", "NOFILE">>,
-                <<"alpn", "http/1.1">>, <<"alpn", "foo">>, <<"alpn">>,
+                <<"alpn", "http/1.1">>, <<"alpn", "foo">>,
                 <<"key_type", "p384">>, <<"key_type", "ed25519">>, <<"key_type", "bogus">>,
-                <<"must_staple">>, <<"insecure_disable_sni_matching">>, <<"wildcard">>, <<"load", "DIR">>,
-                <<"ask", "ftp://127.0.0.1/ask">>, <<"max_certs", "5">>, <<"dns", "verifdns">>, <<"bogus_subdirective">> }
+                <<"insecure_disable_sni_matching">>, <<"wildcard">>, <<"load", "DIR">>,
+                <<"ask", "ftp://127.0.0.1/ask">>, <<"max_certs", "5">>, <<"bogus_subdirective">> }
 CoreAll == { <<"protocols", "tls1.0", "tls1.1">>, <<"protocols", "tls1.3">>, <<"protocols", "tls1.3", "tls1.2">>,
              <<"ciphers", "ECDHE-ECDSA-AES128-CBC-SHA", "ECDHE-ECDSA-AES256-GCM-SHA384">>, <<"ciphers", "ecdhe-ecdsa-aes128-gcm-sha256">>,
              <<"ciphers", "BOGUS">>, <<"curves", "p384">>, <<"curves", "P256", "x25519">>,
@@ -173,24 +175,30 @@ NoHS == [ok |-> FALSE, ver |-> 0, cipher |-> "", asked |-> FALSE, alpn |-> ""]
 
 RECURSIVE FlatLines(_)
 FlatLines(ds) == IF ds = <<>> THEN <<>> ELSE ds[1].lines \o FlatLines(Tail(ds))
-NLines == Len(FlatLines(dirs))
 InSet(s, S) == \A i \in 1..Len(s) : s[i] \in S
 
 Init == /\ host \in Hosts /\ dirs = <<>> /\ pc = "write" /\ d = 0 /\ l = 0 /\ a = 0 /\ loc = NoLoc
         /\ cfg = [NewCfg EXCEPT !.hostname = host] /\ tcfg = NoTLS /\ err = "" /\ p = 0 /\ hs = NoHS
 
 \* ============================== the author ========================================
-Budget == IF host = "name" THEN NameLines ELSE IF Len(dirs) >= 2 THEN MaxLines2 ELSE MaxLines
+\* which files are written: at most two block lines from the whole alphabet (one when there are two `tls` lines,
+\* NameLines on the "name" host, which has a single `tls` line); longer files consist of core lines (and, with two
+\* `tls` lines, of the argument forms in Heads2)
+Writable(ds) ==
+    LET n == Len(FlatLines(ds)) IN
+    IF host = "name" THEN Len(ds) <= 1 /\ n <= NameLines
+    ELSE IF Len(ds) <= 1 THEN n <= 2 \/ (n <= MaxLines /\ InSet(FlatLines(ds), Core))
+    ELSE /\ Len(ds) <= MaxDirs
+         /\ n <= 1 \/ (n <= MaxLines2 /\ InSet(FlatLines(ds), Core) /\ \A i \in 1..Len(ds) : ds[i].args \in Heads2)
 WriteDirective(h) ==
-    /\ pc = "write" /\ Len(dirs) < (IF host = "name" THEN 1 ELSE MaxDirs)
-    /\ (Len(dirs) = 1 => NLines <= MaxLines2)
+    /\ pc = "write"
     /\ dirs' = Append(dirs, [args |-> h, lines |-> <<>>])
+    /\ Writable(dirs')
     /\ UNCHANGED <<host, pc, d, l, a, loc, cfg, tcfg, err, p, hs>>
 WriteLine(ln) ==
-    /\ pc = "write" /\ Len(dirs) > 0 /\ NLines < Budget
-    \* files of three and more lines are built from the core lines only
-    /\ (NLines >= 2 => (ln \in Core /\ InSet(FlatLines(dirs), Core)))
+    /\ pc = "write" /\ Len(dirs) > 0
     /\ dirs' = [dirs EXCEPT ![Len(dirs)].lines = Append(@, ln)]
+    /\ Writable(dirs')
     /\ UNCHANGED <<host, pc, d, l, a, loc, cfg, tcfg, err, p, hs>>
 Load == /\ pc = "write" /\ pc' = "enter"
         /\ UNCHANGED <<host, dirs, d, l, a, loc, cfg, tcfg, err, p, hs>>
@@ -293,18 +301,18 @@ SubSNI ==
     /\ Sub("insecure_disable_sni_matching")
     /\ cfg' = [cfg EXCEPT !.sniOff = TRUE] /\ Back
     /\ Rest /\ UNCHANGED <<a, loc, err>>
-\* c.Args(&x): a missing argument leaves x empty and is not an error
+\* c.Args(&x): a missing argument leaves x as it was and is not an error
 SubLoad ==
     /\ Sub("load")
-    /\ loc' = [loc EXCEPT !.loadDir = IF Len(LArgs) > 0 THEN LArgs[1] ELSE ""] /\ cfg' = [cfg EXCEPT !.manual = TRUE] /\ Back
+    /\ loc' = [loc EXCEPT !.loadDir = IF Len(LArgs) > 0 THEN LArgs[1] ELSE @] /\ cfg' = [cfg EXCEPT !.manual = TRUE] /\ Back
     /\ Rest /\ UNCHANGED <<a, err>>
 SubMaxCerts ==
     /\ Sub("max_certs")
-    /\ loc' = [loc EXCEPT !.maxCerts = IF Len(LArgs) > 0 THEN LArgs[1] ELSE "", !.onDemand = TRUE] /\ Back
+    /\ loc' = [loc EXCEPT !.maxCerts = IF Len(LArgs) > 0 THEN LArgs[1] ELSE @, !.onDemand = TRUE] /\ Back
     /\ Rest /\ UNCHANGED <<a, cfg, err>>
 SubAsk ==
     /\ Sub("ask")
-    /\ loc' = [loc EXCEPT !.ask = IF Len(LArgs) > 0 THEN LArgs[1] ELSE "", !.onDemand = TRUE] /\ Back
+    /\ loc' = [loc EXCEPT !.ask = IF Len(LArgs) > 0 THEN LArgs[1] ELSE @, !.onDemand = TRUE] /\ Back
     /\ Rest /\ UNCHANGED <<a, cfg, err>>
 SubDNS ==
     /\ Sub("dns")
@@ -321,7 +329,7 @@ SubMustStaple ==
     /\ Sub("must_staple")
     /\ cfg' = [cfg EXCEPT !.mustStaple = TRUE] /\ Back
     /\ Rest /\ UNCHANGED <<a, loc, err>>
-\* sub.example.test -> *.example.test; an address or a name that already has a wildcard cannot be converted
+\* sub.example.com -> *.example.com; an address or a name that already has a wildcard cannot be converted
 SubWildcard ==
     /\ Sub("wildcard")
     /\ IF cfg.hostname # "name" THEN Reject("wildcard") /\ UNCHANGED cfg
@@ -441,8 +449,9 @@ MinN(x, y) == IF x <= y THEN x ELSE y
 \* Go's suite preference with AES hardware (only the membership is judged against the real listener)
 Prefer(C) == IF "EA128G" \in C THEN "EA128G" ELSE IF "EA256G" \in C THEN "EA256G" ELSE IF "ECHA" \in C THEN "ECHA" ELSE "EA128C"
 Elems(s) == {s[i] : i \in 1..Len(s)}
-\* suites a connection of version v may use: configured, offered, servable by an EC certificate, AEAD only from TLS 1.2
-Usable(t, o, v) == (Elems(t.ciphers) \cap o.suites \cap ECSuites) \cap (IF v < 12 THEN {"EA128C"} ELSE ECSuites)
+\* suites a connection of version v may use: configured, offered, servable by a certificate with an EC key (ed: an
+\* Ed25519 key, which TLS knows from version 1.2 on), AEAD only from TLS 1.2
+Usable(t, o, v, ed) == (Elems(t.ciphers) \cap o.suites \cap ECSuites) \cap (IF v >= 12 THEN ECSuites ELSE IF ed THEN {} ELSE {"EA128C"})
 \* crypto/tls negotiateALPN: the server's order decides; an http/1.1 client may talk to an h2 server without ALPN
 ALPNOf(srv, cli) ==
     IF cli = <<>> THEN [ok |-> TRUE, proto |-> ""]
@@ -460,19 +469,21 @@ CurveOK(t, o) == o.curve = "any" \/ Has(t.curves, o.curve)
 \* the request on the established connection (no SNI is sent for an address): "strict host matching" answers 403
 \* for a site with client authentication unless insecure_disable_sni_matching was written
 StatusOf(c) == IF c.auth # "none" /\ ~c.sniOff THEN 403 ELSE 204
-HSOf(t, o) ==
+HSOf(t, o, ed) ==
     LET v == MinN(t.max, o.vmax)
         al == ALPNOf(t.alpn, o.alpn)
-    IN IF MaxN(t.min, o.vmin) > v \/ ~CurveOK(t, o) \/ (v < 13 /\ Usable(t, o, v) = {}) \/ ~al.ok \/ ~AcceptsCert(t, o.cc)
+    IN IF MaxN(t.min, o.vmin) > v \/ ~CurveOK(t, o) \/ (v < 13 /\ Usable(t, o, v, ed) = {}) \/ ~al.ok \/ ~AcceptsCert(t, o.cc)
          THEN NoHS
-         ELSE [ok |-> TRUE, ver |-> v, cipher |-> IF v >= 13 THEN "tls13" ELSE Prefer(Usable(t, o, v)),
+         ELSE [ok |-> TRUE, ver |-> v, cipher |-> IF v >= 13 THEN "tls13" ELSE Prefer(Usable(t, o, v, ed)),
                asked |-> t.auth # "none", alpn |-> al.proto]
-\* a listener that can be probed: exactly one certificate, with an EC key, for the address
-Probeable == /\ pc = "done" /\ tcfg.made /\ host = "ip" /\ Cardinality(cfg.certs) = 1
-             /\ ("self" \in cfg.certs => cfg.keyType \in {"", "P256"})
+\* a listener that can be probed: exactly one certificate for the address, with an EC or Ed25519 key, and no
+\* on-demand issuance (a handshake must never be able to reach an ACME server)
+Probeable == /\ pc = "done" /\ tcfg.made /\ host = "ip" /\ Cardinality(cfg.certs) = 1 /\ ~cfg.onDemand
+             /\ ("self" \in cfg.certs => cfg.keyType \in {"", "P256", "P384", "ED25519"})
+EdKey == "self" \in cfg.certs /\ cfg.keyType = "ED25519"
 Negotiate(i) ==
     /\ Probeable
-    /\ p' = i /\ hs' = HSOf(tcfg, Probes[i]) /\ pc' = "hs"
+    /\ p' = i /\ hs' = HSOf(tcfg, Probes[i], EdKey) /\ pc' = "hs"
     /\ UNCHANGED <<host, dirs, d, l, a, loc, cfg, tcfg, err>>
 
 Next == \/ \E h \in Heads : WriteDirective(h)
@@ -519,8 +530,7 @@ GoodLine(ln) ==
       [] ln[1] = "clients" -> Len(ln) >= 2 /\ (ClientMode(ln) \in {"verifyifgiven", "requireandverify"} => ClientFiles(ln) # <<>>)
       [] ln[1] = "alpn" -> Len(ln) >= 2
       [] ln[1] = "dns" -> Len(ln) >= 2 /\ ln[2] \in DNSProviders
-      [] ln[1] = "ask" -> Len(ln) >= 2 => ln[2] \in GoodAsk
-      [] ln[1] \in {"load", "max_certs"} \cup Flags -> TRUE
+      [] ln[1] \in {"load", "max_certs", "ask"} \cup Flags -> TRUE
       [] OTHER -> FALSE
 W_keyType == IF Written("key_type") THEN KeyType[LastLine("key_type")[2]] ELSE ""
 W_selfSigned == \E i \in DirIdx : dirs[i].args = <<"self_signed">>
@@ -532,6 +542,8 @@ Invalid ==
     \/ Written("wildcard") /\ (host # "name" \/ Len(Named("wildcard")) > 1)
     \/ \E i \in DirIdx : Len(dirs[i].args) = 2 /\ dirs[i].args \notin GoodPairs
     \/ Written("clients") /\ GoodLine(LastLine("clients")) /\ ~InSet(ClientFiles(LastLine("clients")), GoodCAs)
+    \/ \E i \in DirIdx : LET A == SelectSeq(dirs[i].lines, LAMBDA ln : ln[1] = "ask" /\ Len(ln) >= 2) IN
+                          A # <<>> /\ A[Len(A)][2] \notin GoodAsk      \* of the `ask` lines of one block the last one counts
     \/ ~Repaired /\ W_selfSigned /\ Written("key_type") /\ GoodLine(LastLine("key_type")) /\ W_keyType = "ED25519"
 
 Terminal == pc \in {"done", "rejected"}
@@ -623,6 +635,7 @@ HandshakeFailsOnlyWhenDisjoint ==
         LET o == Probes[p] IN
         \/ MaxN(tcfg.min, o.vmin) > MinN(tcfg.max, o.vmax)
         \/ ~CurveOK(tcfg, o) \/ ~ALPNOf(tcfg.alpn, o.alpn).ok \/ ~AcceptsCert(tcfg, o.cc)
+        \/ EdKey /\ MinN(tcfg.max, o.vmax) < 12
         \/ /\ MinN(tcfg.max, o.vmax) < 13
            /\ Elems(Tail(tcfg.ciphers)) \cap o.suites \cap (IF MinN(tcfg.max, o.vmax) < 12 THEN {"EA128C"} ELSE ECSuites) = {}
 
@@ -633,9 +646,9 @@ TypeOK == /\ pc \in {"write", "enter", "next", "args", "block", "sub", "check", 
 
 \* =============================== case emission =========================================
 \* one CASE per file, printed in the state in which its load has ended
-Allowed(t, o) == LET v == MinN(t.max, o.vmax) IN IF v >= 13 THEN {"tls13"} ELSE Usable(t, o, v)
-HSRow(t, o) == LET h == HSOf(t, o) IN
-    <<IF h.ok THEN 1 ELSE 0, h.ver, h.cipher, IF h.ok THEN Allowed(t, o) ELSE {}, IF h.asked THEN 1 ELSE 0, h.alpn>>
+Allowed(t, o, ed) == LET v == MinN(t.max, o.vmax) IN IF v >= 13 THEN {"tls13"} ELSE Usable(t, o, v, ed)
+HSRow(t, o, ed) == LET h == HSOf(t, o, ed) IN
+    <<IF h.ok THEN 1 ELSE 0, h.ver, h.cipher, IF h.ok THEN Allowed(t, o, ed) ELSE {}, IF h.asked THEN 1 ELSE 0, h.alpn>>
 \* (the offers are printed once, from the initial state)
 Emit ==
     /\ (pc = "write" /\ dirs = <<>> /\ host = "ip") => PrintT(<<"CASE", ToJson([probes |-> Probes])>>)
@@ -645,5 +658,5 @@ Emit ==
          cfg |-> [cfg EXCEPT !.certs = [self |-> "self" \in cfg.certs, pair |-> "pair" \in cfg.certs, dir |-> "dir" \in cfg.certs]],
          cdef |-> (W_cipherNames = <<>>),
          tls |-> tcfg, status |-> StatusOf(cfg),
-         hs |-> IF Probeable THEN [i \in 1..Len(Probes) |-> HSRow(tcfg, Probes[i])] ELSE <<>>])>>)
+         hs |-> IF Probeable THEN [i \in 1..Len(Probes) |-> HSRow(tcfg, Probes[i], EdKey)] ELSE <<>>])>>)
 =============================================================================
